@@ -86,6 +86,23 @@ def _injectable(cls):
     return _INJ[cls]
 
 
+def _message(e):
+    """Text of sqlglot's own errors (and of the ValueError raised for bad dialect settings): it is what the caller is shown.
+    Object addresses are masked; injected faults and Python's own errors carry no message."""
+    import re
+
+    try:
+        from sqlglot.errors import SqlglotError
+    except Exception:
+        return []
+    if isinstance(e, SqlglotError) or type(e) is ValueError:
+        m = str(e)
+        if "injected abort" in m:
+            return []
+        return [re.sub(r"0x[0-9a-fA-F]+", "0x?", m)[:400]]
+    return []
+
+
 def _level(name):
     import sqlglot
 
@@ -240,9 +257,11 @@ def run_step(step, comps):
             with open(os.environ["VERIF_DEBUG_TB"], "a") as fh:
                 fh.write(traceback.format_exc() + "\n")
         if type(e).__name__ == "ParseError" and isinstance(getattr(e, "errors", None), list):
-            # ParseError.errors is the documented, structured part of the outcome: what was found wrong, in which order
-            return ["exc", "ParseError", [str(d.get("description")) for d in e.errors if isinstance(d, dict)]]
-        return ["exc", type(e).__name__]
+            # ParseError.errors is the documented, structured part of the outcome: what was found wrong, where, in which order,
+            # with which excerpt of the input
+            return ["exc", "ParseError", [[str(d.get(k)) for k in ("description", "line", "col", "start_context", "highlight", "end_context", "into_expression")]
+                                          for d in e.errors if isinstance(d, dict)]]
+        return ["exc", type(e).__name__] + _message(e)
 
 
 def base_tables():
